@@ -240,6 +240,15 @@ def new_target(rng, t, kind, src):
                 p[k, rng.integers(0, 2)] += rng.uniform(-0.4, 0.4, len(k))
             a2, b2 = gen.tri_area2(src, tl), gen.tri_area2(p, tl)
             if (np.sign(a2) == np.sign(b2)).all() and np.abs(b2).min() > 1.0:
+                if rng.random() < 0.25:
+                    # the target as unsigned pixel positions (uint8 / uint16), as an annotation tool stores them
+                    udt = [np.uint16, np.uint8][rng.integers(0, 2)]
+                    span = float(np.ptp(p, axis=0).max())
+                    kk = (200.0 if udt is np.uint8 else float(rng.uniform(300, 3000))) / max(span, 1e-9)
+                    pu = np.round((p - p.min(0)) * kk + 3)
+                    b3 = gen.tri_area2(pu, tl)
+                    if pu.max() < np.iinfo(udt).max and (np.sign(a2) == np.sign(b3)).all() and np.abs(b3).min() > 4.0:
+                        return ms.PointCloud(pu.astype(udt))
                 return ms.PointCloud(p)
         return ms.PointCloud(src @ lin.T)
     mode = int(rng.integers(0, 4))
@@ -385,12 +394,21 @@ def w_history(ctx, rng, i):
             continue
         if r < 0.4 and not warp:
             # parameter update in between (the alignment re-syncs its target), then retarget again
+            held = last_target.get(id(who))
+            held_dig = digest(held) if held is not None else None
             try:
                 v = np.array(who.as_vector())
                 who._from_vector_inplace(v)
                 shape.append("from_vector")
             except NotImplementedError:
-                pass
+                continue
+            # the target object the caller handed over stays the caller's: a parameter update gives the alignment a target of its
+            # own making, and no other live object (the original of a copy, a copy of the original) notices anything
+            ctx.tap("parameter_update_between_retargets", "calls"); ctx.tap("parameter_update_between_retargets", "checked")
+            if held is not None and digest(held) != held_dig:
+                ctx.fail("retargeting_one_object_changed_another_live_copy", cls=type(who).__name__, mech="parameter_update_wrote_into_the_target_object_the_caller_handed_over")
+            last_target.pop(id(who), None)
+            audit_live(ctx, live, who)
             continue
         # history: the same point array applied before and after the retarget (whatever the object remembers about
         # its last input must not survive the retarget)
